@@ -68,7 +68,7 @@ func ParseTextStream(scanner *bufio.Scanner) (*BulkElement, error) {
 				bulkElement.Data = TransactionRequest{
 					Script: ledgercontroller.ScriptV1{
 						Script: vm.Script{
-							Plain: plain[:len(plain)-1], // remove last \n
+							Plain: strings.TrimSuffix(plain, "\n"), // remove last \n
 						},
 					},
 				}
